@@ -336,7 +336,9 @@ class JsonSchemaGenerator:
             # the fields map is keyed in lower case for case-insensitive fields: use the real name
             name = field.name
             properties[name] = value
-            if field.dependencies:
+            if field.dependencies and not (self.output and not field.no_default):
+                # dependencies constrain the input; in the output a field filled from its default
+                # appears without them
                 dependent_required[name] = sorted(field.dependencies)
             if field.is_required(options or self.options):
                 # will count options.ignore_required in
